@@ -420,6 +420,16 @@ def _small_c15(tier, seed, shard=(0, 1)):
         k += 1
         if k % shard[1] == shard[0]:
             yield {"model": model3, "cut": c}
+    # ... and cuts inside the DATA of the second / third partition: that partition's files lying before the cut are still complete
+    model7 = {"partitions": [{"size_sectors": 128, "volumes": [_vol("VA", [_sample("P1", 500, 31)])]},
+                             {"size_sectors": 128, "volumes": [_vol("VB", [_sample("Q1", 300, 32, sectors=[5]), _sample("Q2", 6000, 33, sectors=[6, 7]),
+                                                                           _sample("Q3", 3000, 34, sectors=[9])], dir_sectors=[4])]},
+                             {"size_sectors": 128, "volumes": [_vol("VC", [_sample("R1", 300, 35, sectors=[5]), _sample("R2", 5000, 36, sectors=[6, 7])], dir_sectors=[4])]}]}
+    cuts7 = [pb * 128 * 8192 + s * 8192 + d for pb in (1, 2) for s in (5, 6, 7, 8, 9, 10) for d in ((0, 150, 5000) if tier == "quick" else (0, 1, 139, 140, 150, 4096, 5000, 8191))]
+    for c in cuts7:
+        k += 1
+        if k % shard[1] == shard[0]:
+            yield {"model": model7, "cut": c}
 
 
 @contract("e2e:C15", props=["C15"], abstract=True)
@@ -492,11 +502,15 @@ def _build_c16(inputs):
             path = _make_image(L, w, inputs["image"])
             with open(path, "rb") as f:
                 before = f.read()
+            # the reference answers - a fresh object per operation - are taken FIRST and in REVERSE order, so that the reference for operation k
+            # is computed before anything operation j < k could have left behind, in the object or anywhere in the process
+            want = [None] * len(inputs["ops"])
+            for k in reversed(range(len(inputs["ops"]))):
+                want[k] = _do_op(L, L.open_image(path), inputs["ops"][k], w, f"f{k}")
             shared = L.open_image(path)
-            got, want = [], []
+            got = []
             for k, op in enumerate(inputs["ops"]):
                 got.append(_do_op(L, shared, op, w, f"s{k}"))
-                want.append(_do_op(L, L.open_image(path), op, w, f"f{k}"))
             with open(path, "rb") as f:
                 after = f.read()
             return {"shared": got, "fresh": want, "image_unchanged": before == after}
@@ -552,7 +566,7 @@ def _small_c16(tier, seed, shard=(0, 1)):
         ops = [["ls", p] for p in im["paths"]] + [["export"]]
         for n in range(2, maxlen + 1):
             for seq in itertools.product(ops, repeat=n):
-                if tier == "quick" and n == 2 and seq[0][0] == "ls" and seq[1][0] == "ls" and (k % 3):
+                if tier == "quick" and n == 2 and seq[0][0] == "ls" and seq[1][0] == "ls" and (k % 3) and im["kind"] != "roland":
                     k += 1
                     continue
                 if n == 3 and sum(1 for o in seq if o[0] == "export") == 0 and (k % 5):
@@ -1254,6 +1268,8 @@ def _build_img_inter(inputs):
     def run():
         model = expand_akai(_base_akai(inputs.get("k", 0)))
         raw = L.aw.build_akai_image(model)
+        if inputs.get("container") == "2352":
+            raw = L.aw.wrap_2352(raw)          # the same image as MODE1/2352 raw sectors: sector streams nested in a sector stream
         with L.Workdir() as w:
             p = w.file("img.akai", raw)
             image = L.open_image(p)
@@ -1329,7 +1345,7 @@ def _small_img_inter(tier, seed, shard=(0, 1)):
         cases.append(sched)
     for k, c in enumerate(cases):
         if k % shard[1] == shard[0]:
-            yield {"schedule": c, "k": k % 3, "drain_block": (1500, 4096, 8192)[k % 3]}
+            yield {"schedule": c, "k": k % 3, "drain_block": (1500, 4096, 8192)[k % 3], **({"container": "2352"} if k % 2 else {})}
 
 
 @contract("bounded:image_stream_interleavings", props=["C11"], abstract=True)
@@ -1340,7 +1356,7 @@ def _bisi(c):
 CONCRETE["bounded:image_stream_interleavings"] = {
     "build": _build_img_inter, "small": _small_img_inter, "oracle": _oracle_img_inter, "shards": 4,
     "nontrivial": lambda i, s: s["kind"] == "return",
-    "bound": "a two-partition AKAI image (three directories, six samples, fragmented chains): every ordered pair of sample streams from different directories "
+    "bound": "a two-partition AKAI image (three directories, six samples, fragmented chains), plain and as MODE1/2352 raw sectors: every ordered pair of sample streams from different directories "
              "(thorough: every ordered pair) read in alternating blocks with listings of other directories in between, directories realised lazily in schedule order; "
              "10 / 200 random schedules of reads (1..20000 bytes), re-seeks and listings over all six streams; every stream compared with its sample's PCM window",
     "timeout_s": 60.0, "budget_quick": 120, "budget_thorough": 900,
